@@ -3,6 +3,7 @@ package props
 import (
 	"fmt"
 	"math/big"
+	"os"
 	"sort"
 	"strings"
 	"testing"
@@ -246,6 +247,10 @@ func c05RunGadget(c c05Case) (bool, bool, bool, string, eng.Result) {
 	return false, false, false, "", res
 }
 
+// c05LocalDepth: a gadget's own constraints see a witnessed value through at most this many
+// further MulAdd/Reduce/Inverse hints (Inverse asserts x*inv == 1 on a MulAdd result: depth 2).
+const c05LocalDepth = 3
+
 // c05RunWhole: substitution at a dynamic hint index of a whole-verifier run must be rejected locally.
 func c05RunWhole(c c05Case) (bool, bool, bool, string, eng.Result) {
 	rn := getRunner(c.Base, c.K)
@@ -260,7 +265,17 @@ func c05RunWhole(c c05Case) (bool, bool, bool, string, eng.Result) {
 	if isInverseOfZero(inj) {
 		return false, false, true, "", res
 	}
-	local := res.Outcome == eng.Reject && strings.Contains(res.Site, inj.Caller) && res.NHints-(c.Index+1) <= 8
+	// "locally" = the failing assertion has an operand derived from the substituted outputs by
+	// arithmetic, bit decomposition, limb splitting or gnark's own hints only (no further
+	// MulAdd/Reduce/Inverse hint in between); independent of function names and of where the
+	// repository places or defers the assertions.
+	local := res.Outcome == eng.Reject && res.RejectTainted && res.RejectDepth <= c05LocalDepth
+	if os.Getenv("VERIF_C05_DEBUG") != "" {
+		old := res.Outcome == eng.Reject && strings.Contains(res.Site, inj.Caller) && res.NHints-(c.Index+1) <= 8
+		if old != local {
+			fmt.Fprintf(os.Stderr, "C05DBG old=%v new=%v depth=%d kind=%s caller=%s site=%s strat=%s\n", old, local, res.RejectDepth, inj.Kind, inj.Caller, res.Site, c.Subst.Strategy)
+		}
+	}
 	if local {
 		return false, false, false, "", res
 	}
@@ -360,7 +375,7 @@ func c05Compiled(c c05Case) (bool, bool, bool, string) {
 func TestC05(t *testing.T) {
 	r := rec.New("C05")
 	defer r.Flush()
-	r.Rule("(A) isolated gadgets {MulAdd, Reduce, ReduceWithMaxBits(128), RangeCheck, Inverse, MulExtension, InverseExtension, full Poseidon permutation} on rapid-generated operands (edge-heavy), one hint call chosen uniformly among the gadget's dynamic hint calls, replaced by a generated dishonest tuple: (X+k*r) div/mod p, (q-j, rem+j*p), field-solved quotient for a drawn remainder, shifted / field-solved limb pairs, inverse+k*p, arbitrary; engine native+plain and compiled R1CS/SCS via solver.OverrideHint.  (B) whole verifier (A1/k=1..2, B1/k=1): every static hint site group (hint kind + 3 innermost repo frames) x fixed strategy list x first/middle/last dynamic occurrence.  Oracle: a substituted tuple that differs from the honest one (mod r) must be REJECTed -- in (B) by the requesting gadget's own constraints (reject site inside the requesting function, within 8 further hints).  (C) bound monitor over whole-verifier executions: at every equality asserted from package goldilocks both sides have an integer bound < r.  Trivial = substituted tuple equals the honest tuple; the value returned by Inverse(0) is a documented don't-care (counted, excluded).  Distinct = (site or gadget+operands, hint index, strategy).")
+	r.Rule("(A) isolated gadgets {MulAdd, Reduce, ReduceWithMaxBits(128), RangeCheck, Inverse, MulExtension, InverseExtension, full Poseidon permutation} on rapid-generated operands (edge-heavy), one hint call chosen uniformly among the gadget's dynamic hint calls, replaced by a generated dishonest tuple: (X+k*r) div/mod p, (q-j, rem+j*p), field-solved quotient for a drawn remainder, shifted / field-solved limb pairs, inverse+k*p, arbitrary; engine native+plain and compiled R1CS/SCS via solver.OverrideHint.  (B) whole verifier (A1/k=1..2, B1/k=1): every static hint site group (hint kind + 3 innermost repo frames) x fixed strategy list x first/middle/last dynamic occurrence.  Oracle: a substituted tuple that differs from the honest one (mod r) must be REJECTed -- in (B) by the requesting gadget's own constraints (taint tracking: the failing assertion must have an operand derived from the substituted outputs through arithmetic, bit decomposition, limb splitting, gnark's own hints and at most 2 further MulAdd/Reduce/Inverse hints -- independent of function names and of where the assertion is placed or deferred).  (C) bound monitor over whole-verifier executions: at every equality asserted from package goldilocks both sides have an integer bound < r.  Trivial = substituted tuple equals the honest tuple; the value returned by Inverse(0) is a documented don't-care (counted, excluded).  Distinct = (site or gadget+operands, hint index, strategy).")
 	r.Assume("engine native flavour has exact range-check semantics (C06)", "interval transfer functions of the bound monitor", "control flow of Define is data independent, so dynamic hint indices are stable across runs of one shape")
 
 	var rp c05Case
